@@ -160,7 +160,11 @@ class NPProxy(object):
 
     def interp(self, *a, **k):
         r = np.interp(*a, **k)
-        self._rec['interp'].append(r)
+        # the five band calls interpolate the response at every pixel; other np.interp calls inside the module are not weights
+        if np.size(r) == self._rec.get('npix'):
+            self._rec['interp'].append(r)
+        else:
+            self._rec['other_interp'] = self._rec.get('other_interp', 0) + 1
         return r
 
     def absolute(self, x):
@@ -170,7 +174,7 @@ class NPProxy(object):
 
 
 def run_filter(flux, wave, mask, toair):
-    rec = {'interp': [], 'logdiff': None, 'flux_interp': None, 't2xy': None}
+    rec = {'interp': [], 'logdiff': None, 'flux_interp': None, 't2xy': None, 'npix': int(np.size(flux))}
     real_np, real_mi, real_t2xy = spec2d.np, spec2d.djs_maskinterp, spec2d.traceset2xy
 
     def t2xy(*a, **k):
@@ -220,8 +224,17 @@ def filter_job(j):
     r2, _ = run_filter(flux2, wave, mask, toair)
     r3, _ = run_filter((a * flux + b * flux2).astype(dt), wave, mask, toair)
     rc, _ = run_filter(np.full((nT, nx), c, dtype=dt), wave, mask, toair)
+    # every trace constant at its OWN level: a band of a trace is a weighted mean of that trace's flux only
+    levels = j.get('levels')
+    rl = None
+    if levels:
+        lv = np.array(levels, dtype=dt).reshape(nT, 1) * np.ones((1, nx), dtype=dt)
+        rl, _ = run_filter(lv, wave, mask, toair)
     out = {'res': [fls(r) for r in r1], 'res2': [fls(r) for r in r2], 'res_lin': [fls(r) for r in r3],
            'res_const': [fls(r) for r in rc], 'input_unchanged': unchanged, 'shape': list(r1.shape), 'res_dtype': str(r1.dtype)}
+    if rl is not None:
+        out['res_levels'] = [fls(r) for r in rl]
+    out['other_interp_calls'] = rec.get('other_interp', 0)
     if mask is not None:
         junk = flux.copy()
         junk[mask != 0] = np.array(j['junk'], dtype=dt)[: int((mask != 0).sum())] if j.get('junk') else 1.0e6
